@@ -134,6 +134,7 @@ def _shard(args):
         g = qs_common.Gen(rng, "c19", nchan=2, max_jobs=5)
         g.names = ["n1", "n2", "n2", "n3", "n4"]
         lines = []
+        ended = {}
         req.append("reset")
         impl.append(None)
         meta.append(None)
@@ -149,6 +150,9 @@ def _shard(args):
                     t[3] = str(rng.choice([0, 1, 2, 3, 5, 6]))
                     line = " ".join(t)
                 rep = sim.op(line)
+                for jb in sim.workq.id2job.values():      # how each job ended, recorded when it ended (by serial: a re-added id is a new job)
+                    if jb.done and jb.serial not in ended:
+                        ended[jb.serial] = (jb.error, len(lines) + 1)
                 lines.append(line)
                 req.append(line)
                 impl.append(rep)
@@ -161,6 +165,14 @@ def _shard(args):
                     impl.append(c)
                     meta.append(list(lines) + [f"status {w}"])
                     why = status_oracle(sim, w, d)
+                    jb = sim.workq.id2job.get(f"{CID}:render-{w}")
+                    if not why and jb is not None and jb.serial in ended:
+                        err, step = ended[jb.serial]
+                        st = d.get("state")
+                        if err and st != "failed":
+                            why = f"the render job of writer {w} ended with error {err!r} at step {step}, the status now says {st!r}"
+                        elif not err and st != "finished":
+                            why = f"the render job of writer {w} ended without error at step {step}, the status now says {st!r}"
                     if why and len(viol) < 5:
                         viol.append({"history": list(lines), "writer": w, "why": why, "reply": d})
         finally:
